@@ -134,8 +134,8 @@ func (c *tctx) helper(name string) bool {
 			fail("helper result")
 		}
 		value, panics := h.block(fd.Body.List, results)
-		*c.aux = append(*c.aux, fmt.Sprintf("(* helper %s, translated because a fragment calls it *)\nDefinition %s %s : %s :=\n  %s.\nDefinition %s_panics %s : bool :=\n  %s.\n\n",
-			name, t.Name, strings.Join(params, " "), coqType(results[0]), value, t.Name, strings.Join(params, " "), panics))
+		*c.aux = append(*c.aux, fmt.Sprintf("(* helper %s, translated because a fragment calls it *)\nDefinition %s %s : %s :=\n  %s.\nDefinition %s_panics %s : bool :=\n  %s.\n#[global] Hint Unfold %s %s_panics : translated.\n\n",
+			name, t.Name, strings.Join(params, " "), coqType(results[0]), value, t.Name, strings.Join(params, " "), panics, t.Name, t.Name))
 		c.funcs[name] = t
 		c.ftypes[name] = append(sig, results[0])
 		ok = true
@@ -1351,14 +1351,43 @@ func (c *tctx) fragment(body *ast.BlockStmt) (string, string, string) {
 					return true
 				}
 				sel, ok := call.Fun.(*ast.SelectorExpr)
-				if ok && depth < 3 {
-					// a method of the same keeper, declared in this package: its writes are this function's writes
-					if id, isId := sel.X.(*ast.Ident); isId && (id.Name == "k" || id.Name == "m") {
-						for _, f := range c.files {
-							for _, d := range f.Decls {
-								if fd, isF := d.(*ast.FuncDecl); isF && fd.Recv != nil && fd.Body != nil && fd.Name.Name == sel.Sel.Name {
-									collect(fd.Body, depth+1)
+				if ok && depth < 4 {
+					// a method declared in this package, called on a plain identifier (the keeper, a helper value): its
+					// writes are this function's writes
+					switch sel.Sel.Name {
+					case "Set", "Delete", "Get", "Has", "Iterator", "Key", "Value":
+					default:
+						if id, isId := sel.X.(*ast.Ident); isId {
+							// no type information: a method name that several types of the package declare is resolved by the
+							// receiver's name (k.F() inside a method of (k Keeper)); what stays ambiguous is not guessed
+							var cands, named []*ast.FuncDecl
+							for _, f := range c.files {
+								for _, d := range f.Decls {
+									if fd, isF := d.(*ast.FuncDecl); isF && fd.Recv != nil && fd.Body != nil && fd.Name.Name == sel.Sel.Name {
+										cands = append(cands, fd)
+										if len(fd.Recv.List) == 1 && len(fd.Recv.List[0].Names) == 1 && fd.Recv.List[0].Names[0].Name == id.Name {
+											named = append(named, fd)
+										}
+									}
 								}
+							}
+							switch {
+							case len(cands) == 1:
+								collect(cands[0].Body, depth+1)
+							case len(named) == 1:
+								collect(named[0].Body, depth+1)
+							case len(cands) > 1:
+								fail("%s.%s in %s: several methods of that name in the package, the callee cannot be told without types", id.Name, sel.Sel.Name, t.Func)
+							}
+						}
+					}
+				}
+				if id, isId := call.Fun.(*ast.Ident); isId && depth < 4 {
+					// a plain function of this package (a helper that is handed the store)
+					for _, f := range c.files {
+						for _, d := range f.Decls {
+							if fd, isF := d.(*ast.FuncDecl); isF && fd.Recv == nil && fd.Body != nil && fd.Name.Name == id.Name {
+								collect(fd.Body, depth+1)
 							}
 						}
 					}
@@ -1416,7 +1445,42 @@ func (c *tctx) fragment(body *ast.BlockStmt) (string, string, string) {
 				return true
 			}
 			foundCall = true
-			for _, a := range call.Args {
+			args := call.Args
+			if call.Ellipsis.IsValid() && len(args) > 0 {
+				// f(list...): the list is the slice literal a helper of this package returns, or a local holds
+				spread := args[len(args)-1]
+				var lit *ast.CompositeLit
+				switch y := spread.(type) {
+				case *ast.CallExpr:
+					if id, ok := y.Fun.(*ast.Ident); ok {
+						for _, f := range c.files {
+							for _, d := range f.Decls {
+								fd, isF := d.(*ast.FuncDecl)
+								if !isF || fd.Recv != nil || fd.Body == nil || fd.Name.Name != id.Name || len(fd.Body.List) != 1 {
+									continue
+								}
+								if rs, ok := fd.Body.List[0].(*ast.ReturnStmt); ok && len(rs.Results) == 1 {
+									lit, _ = rs.Results[0].(*ast.CompositeLit)
+								}
+							}
+						}
+					}
+				case *ast.Ident:
+					ast.Inspect(body, func(n2 ast.Node) bool {
+						if as, ok := n2.(*ast.AssignStmt); ok && len(as.Lhs) == 1 && len(as.Rhs) == 1 && as.Pos() < call.Pos() {
+							if l, ok := as.Lhs[0].(*ast.Ident); ok && l.Name == y.Name {
+								lit, _ = as.Rhs[0].(*ast.CompositeLit)
+							}
+						}
+						return true
+					})
+				}
+				if lit == nil {
+					fail("the spread argument of %s in %s is not a slice literal the translator can read", t.Pick, t.Func)
+				}
+				args = append(append([]ast.Expr{}, args[:len(args)-1]...), lit.Elts...)
+			}
+			for _, a := range args {
 				switch y := a.(type) {
 				case *ast.CallExpr:
 					fn := norm(c.fset, y.Fun)
@@ -1627,7 +1691,7 @@ func main() {
 	ftypes := map[string][]string{}
 	var sb strings.Builder
 	sb.WriteString("(* GENERATED by /verif/translator (go2coq) from the current source of settlus/chain. Do not edit. *)\n")
-	sb.WriteString("From Coq Require Import String.\nFrom Settlus Require Import Base.Prelude Base.Dec.\nFrom Settlus Require Import Base.GoSem Base.Hex Base.Keys.\nOpen Scope Z_scope.\nOpen Scope bool_scope.\n\n")
+	sb.WriteString("From Coq Require Import String.\nFrom Settlus Require Import Base.Prelude Base.Dec.\nFrom Settlus Require Import Base.GoSem Base.Hex Base.Keys.\nOpen Scope Z_scope.\nOpen Scope bool_scope.\n(* helpers a fragment calls are unfolded by [autounfold with translated] *)\nCreate HintDb translated.\n\n")
 	okN, failN := 0, 0
 	var names []string
 	for i := range targets {
